@@ -116,6 +116,8 @@ LEXEMES = [
     '{', '}', '(', ')', ',', '!', '||', '&&', '+', '-', '.', ':', '?', '*', '+.',
     '-.', ':.', '=', '>', '<', '>=', '<=', '=>', '0', '1', '2', '3', '9',
     'c1', 'zz9', 'é', '٣', '\r', '\x0c', '\x0b', '\xa0', '\u2003',
+    # characters str.isdigit() accepts and int() does not
+    '²', '①',
 ]
 SHORT_ALPHABET = ['a', 'C', '1', '_', ' ', '\n', '\t', '{', '}', '(', ')', ',',
                   '!', '.', 'é', '\r']
@@ -157,3 +159,47 @@ def one_edits(toks, lexemes=LEXEMES):
     for i in range(len(toks) + 1):
         for a in lexemes:
             yield ('ins', toks[:i] + [a] + toks[i:])
+
+
+# ---- long inputs: every right-recursive chain of the grammar, n links ------
+_HEAD = "rule L{ reactant r1{ C labeled c1 H labeled h1 single bond to c1} "
+_TAIL = ("break bond(c1,h1) increase number of radical(c1) increase number of "
+         "radical(h1)}")
+
+
+def long_texts(n):
+    """One text per chain rule of the grammar with n links (valid for the
+    supported constructs, so a reader that copes must accept it)."""
+    yield 'AtomChain', "fragment a{ C labeled c1 " + ' '.join(
+        'C labeled c%d single bond to c%d' % (i, i - 1) for i in range(2, n + 1)) + " }"
+    yield 'RingBondChain', "fragment a{ C labeled c1 C labeled c2 single bond to c1 " + \
+        ' '.join('ringbond c1 any bond to c2' for i in range(n)) + " }"
+    yield 'AtomConstraintChain', "fragment a{ C labeled c1 {" + ' , '.join(
+        '! in ring of size %d' % (3 + i % 6) for i in range(n)) + "} }"
+    yield 'TransformationChain', _HEAD + ' '.join(
+        'increase number of radical(c1) decrease number of radical(c1)'
+        for i in range(n)) + ' ' + _TAIL
+    yield 'Reactants', "rule L{ " + ' '.join(
+        'reactant r%d{ C labeled c%d H labeled h%d single bond to c%d}' % (i, i, i, i)
+        for i in range(1, n + 1)) + ' ' + _TAIL
+    yield 'LabelMapping', "rule L{ reactant r1{ C. labeled c1 } reactant r2 duplicates r1 ( " + \
+        ' , '.join('c1 => c2' for i in range(n)) + \
+        " ) form bond(c1,c2) decrease number of radical(c1) decrease number of radical(c2)}"
+    yield 'ConstraintChain', _HEAD + "constraints{ " + ' && '.join(
+        'r1.size > 1' for i in range(n)) + " } " + _TAIL
+    yield 'SizeChain', _HEAD + "constraints{ " + ' + '.join(
+        'r1.size' for i in range(n)) + " > 1 } " + _TAIL
+    yield 'ChargeChain', _HEAD + "constraints{ " + ' + '.join(
+        'r1.charge' for i in range(n)) + " = 0 } " + _TAIL
+    yield 'FragmentChain', _HEAD + "constraints{ " + ' '.join(
+        'fragment q%d{ C labeled x }' % i for i in range(n)) + " r1 contains q0 } " + _TAIL
+    yield 'MolecularFormulaChain', _HEAD + "constraints{ r1.formula is " + ' '.join(
+        ('C', 'H', 'O', 'N')[i % 4] + ' 2' for i in range(n)) + " } " + _TAIL
+    yield 'BranchConstraint', _HEAD + "constraints{ " + '( ' * n + 'r1.size > 2' + \
+        ' )' * n + " } " + _TAIL
+    yield 'Name', "fragment " + 'a' * n + "{ C labeled " + 'c' * n + " }"
+    yield 'Whitespace', "fragment a{" + ' \n' * n + "C labeled c1" + '\n ' * n + "}"
+
+
+LONG_N = {'quick': (8, 40, 120, 400, 1200), 'thorough': (8, 40, 120, 250, 400, 800, 1200, 3000)}
+DIGIT_RUNS = (2, 19, 400, 4301, 5000)
